@@ -615,7 +615,7 @@ theorem append_rel (im other : Img) (hcs : other.cs = im.cs) (hsc : other.scalar
     (hd : anyNone im.date = true) (ht : anyNone im.time = false) (ht' : anyNone other.time = false) :
     im.append other none = .ok { im with series := true, slabs := im.slabs ++ other.slabs,
                                           time := im.time ++ other.time, date := im.date ++ other.date } := by
-  unfold Img.append
+  unfold Img.append appendChecks appendTimes
   simp [hcs, hsc, hd, ht, ht', bind, Except.bind, pure, Except.pure, map_add_zero]
 
 /-- `stack` of images carrying relative times only: slabs, times and dates are concatenated -/
@@ -660,7 +660,7 @@ theorem append_dates (im other : Img) (hcs : other.cs = im.cs) (hsc : other.scal
     (hord : ∀ a b, im.date.getLast? = some (some a) → other.date.head? = some (some b) → a < b) :
     im.append other none = .ok (appended im other (relDates (im.date ++ other.date) r)) := by
   have hdd : anyNone (im.date ++ other.date) = false := by rw [anyNone_append, hd, hd']; rfl
-  unfold Img.append appended relDates
+  unfold Img.append appendChecks appendTimes appended relDates
   cases h1 : im.date.getLast? with
   | none => simp [hcs, hsc, hd, hd', ht, ht', bind, Except.bind, pure, Except.pure, timesFromDates, hdd, href]
   | some x =>
@@ -796,7 +796,7 @@ theorem append_offset_fields (im other s : Img) (off : Rat) (h : im.append other
     (ht : anyNone im.time = false) (ht' : anyNone other.time = false) :
     s.time = im.time ++ other.time.map (fun t => t.map (· + off)) ∧ s.date = im.date ++ other.date ∧
       s.slabs = im.slabs ++ other.slabs ∧ s.cs = im.cs ∧ s.scalar = im.scalar ∧ s.ref = im.ref ∧ s.series = true := by
-  unfold Img.append at h
+  unfold Img.append appendChecks appendTimes at h
   simp only [bind, Except.bind, pure, Except.pure, ht, ht', Bool.or_self, Bool.false_eq_true, if_false,
     Option.isNone_some, Bool.false_and, Option.getD_some, throw, throwThe, MonadExceptOf.throw] at h
   repeat' (split at h)
